@@ -109,6 +109,7 @@ func (s *BadSmellListener) EnterInterfaceDeclaration(ctx *InterfaceDeclarationCo
 type interfaceMethodCtx interface {
 	GetStart() antlr.Token
 	GetStop() antlr.Token
+	GetParent() antlr.Tree
 	AllInterfaceMethodModifier() []IInterfaceMethodModifierContext
 	InterfaceCommonBodyDeclaration() IInterfaceCommonBodyDeclarationContext
 }
@@ -123,7 +124,7 @@ func (s *BadSmellListener) EnterGenericInterfaceMethodDeclaration(ctx *GenericIn
 }
 
 func (s *BadSmellListener) enterInterfaceMethod(ctx interfaceMethodCtx) {
-	startLine := ctx.GetStart().GetLine()
+	startLine := declarationStartLine(ctx)
 	startLinePosition := ctx.InterfaceCommonBodyDeclaration().GetStart().GetColumn()
 	stopLine := ctx.GetStop().GetLine()
 	name := ctx.InterfaceCommonBodyDeclaration().(*InterfaceCommonBodyDeclarationContext).Identifier().GetText()
@@ -209,7 +210,7 @@ func (s *BadSmellListener) EnterLocalVariableDeclaration(ctx *LocalVariableDecla
 }
 
 func (s *BadSmellListener) EnterMethodDeclaration(ctx *MethodDeclarationContext) {
-	startLine := ctx.GetStart().GetLine()
+	startLine := declarationStartLine(ctx)
 	startLinePosition := ctx.GetStart().GetColumn()
 	stopLine := ctx.GetStop().GetLine()
 	name := ctx.Identifier().GetText()
@@ -469,4 +470,44 @@ func warpTargetFullType(targetType string) string {
 	}
 
 	return ""
+}
+
+// declarationStartLine is the line of the first token of a method declaration, annotations aside. The grammar hangs
+// the keyword modifiers of a member (public, static, abstract, synchronized ...) on the enclosing body declaration and
+// the type parameters of a generic class method on genericMethodDeclaration; when they stand on a line above the
+// return type the declaration starts there.
+func declarationStartLine(ctx interface {
+	GetStart() antlr.Token
+	GetParent() antlr.Tree
+}) int {
+	line := ctx.GetStart().GetLine()
+	earliest := func(modifiers []IModifierContext) {
+		for _, mo := range modifiers {
+			m := mo.(*ModifierContext)
+			if coi, ok := m.ClassOrInterfaceModifier().(*ClassOrInterfaceModifierContext); ok && coi.Annotation() != nil {
+				continue
+			}
+			if m.GetStart().GetLine() < line {
+				line = m.GetStart().GetLine()
+			}
+		}
+	}
+	for parent := ctx.GetParent(); parent != nil; parent = parent.GetParent() {
+		switch node := parent.(type) {
+		case *GenericMethodDeclarationContext:
+			if node.GetStart().GetLine() < line {
+				line = node.GetStart().GetLine()
+			}
+		case *MemberDeclarationContext, *InterfaceMemberDeclarationContext:
+		case *ClassBodyDeclarationContext:
+			earliest(node.AllModifier())
+			return line
+		case *InterfaceBodyDeclarationContext:
+			earliest(node.AllModifier())
+			return line
+		default:
+			return line
+		}
+	}
+	return line
 }
